@@ -89,6 +89,23 @@ var properties = map[string]*Property{
 		}, commonAssumptions...),
 		OutsideClaim: []string{"more than 2 (quick) / 3 (thorough) plans in the store; Search itself returning every Running plan is C15's obligation"},
 	},
+	"C12": {
+		ID: "C12",
+		Runs: []Run{
+			{Dir: "c12", Pkg: "internal/execute", Fn: "VerifC12Race", P: [2]int{1, 2}, Ticks: [2]int{1, 1}, SwitchOn: []string{"yield:r", "lock"}, Needs: []string{"race explored"}},
+			{Dir: "c12", Pkg: "internal/execute", Fn: "VerifC12Repeat", P: [2]int{1, 2}, Ticks: [2]int{1, 1}, SwitchOn: []string{"yield:r", "lock"}, Needs: []string{"restart after finish rejected", "restart while starting explored"}},
+			{Dir: "c12", Pkg: "internal/execute", Fn: "VerifC12Stale", Needs: []string{"stale submission rejected", "fresh submission accepted", "boundary age accepted"}},
+			{Dir: "c12ws", Pkg: "", Fn: "VerifC12History", Ticks: [2]int{1, 1}, Needs: []string{"a plan was started", "waited for a started plan"}},
+		},
+		Assumptions: append([]string{
+			"model vault honouring the Vault contract: Read of an unknown id returns an error (that the SQLite vault does so is C13's obligation)",
+			"racing Start calls: context switches at the vault's Read (before and after the snapshot is taken) and at lock operations, delay bound P",
+			"staleness clause: SubmitTime and clock in [0, 2^62) ns, 0 < maxSubmit < 2^61 ns",
+			"API histories of at most 3 (quick) / 4 (thorough) calls among Submit, Start, Wait, Plan, Status on the first submitted id or a fresh unknown id; Status is consumed for one result with interval 1s",
+			"the engine behind Start is the real one (sm.States) with the model plugin; worker pool, sync.Group, ShardedMap (linearizable map) and retry library are models",
+		}, commonAssumptions...),
+		OutsideClaim: []string{"Status with a non-positive interval (time.NewTicker panics by contract)", "more than two racing Start calls; histories mixing concurrent API calls other than Start"},
+	},
 }
 
 type eRun struct {
